@@ -1528,7 +1528,11 @@ class Exec:
                 env.assign(t.id, UNBOUND)
             elif isinstance(t, ast.Attribute):
                 o = self.ev(t.value, env)
-                o.f.pop(self.mangle(t.attr, env), None)
+                m = self.models.get(o.cls) if isinstance(o, Obj) else None
+                if m is not None and hasattr(m, 'op_delattr'):
+                    m.op_delattr(self, o, t.attr)
+                else:
+                    o.f.pop(self.mangle(t.attr, env), None)
             else:
                 raise Unsupported('del ' + ast.dump(t)[:80])
 
@@ -1642,6 +1646,8 @@ def _hashable_concrete(v):
         return True
     if isinstance(v, tuple):
         return all(_hashable_concrete(x) for x in v)
+    if isinstance(v, Obj) and v.cls in SEMANTIC_EQ:
+        return False
     if isinstance(v, (Obj, Closure, Native, ClassRef, ClsTok, B.TypeTok)):
         return True      # identity-hashed python-side objects
     return False
